@@ -5,13 +5,13 @@
 package main
 
 import (
-	_ "time/tzdata"
 	"encoding/binary"
 	"fmt"
 	"math/big"
 	"os"
 	"regexp"
 	"time"
+	_ "time/tzdata"
 
 	"github.com/TheManticoreProject/Manticore/crypto/uuid/uuid_v1"
 	"github.com/TheManticoreProject/Manticore/crypto/uuid/uuid_v2"
@@ -544,8 +544,8 @@ func c15TickCorpus() []uint64 {
 		ft, uu, // the two epochs
 		ft - 92233720368547758, ft + 92233720368547758, // int64-nanosecond limits seen from 1970 (1677 / 2262)
 		uu - 92233720368547758, uu + 92233720368547758,
-		92233720368547758,                           // ticks*100 reaches 2^63
-		184467440737095516,                          // ticks*100 reaches 2^64 (year 2185)
+		92233720368547758,                                          // ticks*100 reaches 2^63
+		184467440737095516,                                         // ticks*100 reaches 2^64 (year 2185)
 		0x7FFFFFFFFFFFFFFF, 0x8000000000000000, 0xFFFFFFFFFFFFFFFF, // never sentinels, type extremes
 		1 << 60, 1<<60 - 1, 0x0FFFFFFFFFFFFFFF, // 60-bit UUID timestamp limit
 		1 << 32, 1<<32 - 1, 0xFFFFFFFF00000000, 0x00000000FFFFFFFF,
@@ -582,15 +582,15 @@ func c15RandTicks(r *Rng) uint64 {
 
 var c15SecCorpus = []int64{
 	0, 1, -1, 59, 86400, -86400, 1e9, -1e9,
-	-11644473600,               // 1601-01-01
-	-12219292800,               // 1582-10-15
-	-9223372037, -9223372036,   // 1677-09-21: int64 nanoseconds minimum
-	9223372036, 9223372037,     // 2262-04-11: int64 nanoseconds maximum
+	-11644473600,             // 1601-01-01
+	-12219292800,             // 1582-10-15
+	-9223372037, -9223372036, // 1677-09-21: int64 nanoseconds minimum
+	9223372036, 9223372037, // 2262-04-11: int64 nanoseconds maximum
 	910692730085, 910692730086, // 30828-09-14: FILETIME 0x7FFFFFFFFFFFFFFF
 	1832519379627, 1833029933770, // uint64 ticks maximum seen from 1601 / 1582
-	253402300799,                 // 9999-12-31
-	10413792000, -8000000000,     // 2300, 1716
-	-62135596800,                 // year 1
+	253402300799,             // 9999-12-31
+	10413792000, -8000000000, // 2300, 1716
+	-62135596800,                                             // year 1
 	922337203685, 922337203686, -922337203685, -922337203686, // sec*1e7 reaches the int64 limits
 	-933981677285, -933981677286, // FILETIME int64 minimum
 	1314480109, 1747586125,
